@@ -61,8 +61,10 @@ CLAIMS = {
                 "find_lat_long_along_traj with declared units of the public angles; scatter coverage and guard "
                 "consistency of the line-of-sight stores (or, for the direct form, that the path length is clipped into "
                 "[minLOS, maxLOS]). The two genuine defects it found (unguarded Cardano-branch store, uncovered "
-                "partition at the faces of the cube) were repaired in /repo commit 5c07f2c. It does NOT decide "
-                "exactness of the inverse CDF, spot distance, beta from explicit vectors or positions at s>0.",
+                "partition at the faces of the cube) were repaired in /repo commit 5c07f2c; for a point at distance s along a kept trajectory, the three "
+                "line-of-sight-frame components of R n + s t (s sin(theta) cos(phi), s sin(theta) sin(phi) + R cos(elev), "
+                "s cos(theta) + R sin(elev)) by formula. It does NOT decide "
+                "exactness of the inverse CDF, spot distance, beta from explicit vectors or the frame rotations at s>0.",
         "technique": "value-flow graph + interval, unit, length-class and truth-table predicate analyses",
     },
     "C06": {
@@ -124,7 +126,8 @@ CLAIMS = {
                 "static state; EVERY kernel invocation reachable from the batch call receives the elements of the batch "
                 "arguments by role and the cloud callable, and on EVERY returning path each result is the in-order "
                 "collection of the kernel's return value (dask from_sequence(zip) -> map -> compute, or a sequential "
-                "map/starmap/comprehension) or the guarded empty result, with no other bag combinator; no handler can "
+                "map/starmap/comprehension) or the guarded empty result, with no other bag combinator (a partition-wise or "
+                "reducing combinator is reported: this claim covers the element-wise pipeline only); no handler can "
                 "swallow a task failure. dask's own order/exception semantics and IEEE determinism are trusted, not "
                 "decided.",
         "technique": "effect / alias analysis over the inlined call graph of the kernel, path-complete pipeline "
@@ -261,7 +264,8 @@ CLAIMS = {
                 "product with the mask outside, all updates under that one mask; the 10 MHz bin constant agrees between "
                 "SNR and noise helpers, centres are arange+df/2, inclusive band edges on the table's centre column, "
                 "with a DATA AUDIT of the waveform table (one shared 5,15,... grid); order independence of the radio "
-                "stage and the SNR. It does NOT decide finiteness or values.",
+                "stage and the SNR; the field model against its formula (two Gaussians in the off-axis angle, each with "
+                "its own width squared, hence finite for every fitted width). It does NOT decide finiteness in general or values.",
         "technique": "polynomial degrees / ratios of final values on the value-flow graph (store-to-load forwarding, "
                      "path assumptions), truth-table predicates, length-class (equivariance) typing; data audit",
     },
